@@ -114,8 +114,8 @@ Definition junimod_ok (sizes : list Z) (m : option (list Z)) (o : option (list (
 Definition bounds_strict_ok (lo hi : option Q) : bool :=
   match lo, hi with Some a, Some b => qlt_b a b | _, _ => true end.
 
-(* every check of verify_hyperparameters except the output bounds (which
-   LatticeConstraints does not pass on) *)
+(* every check of verify_hyperparameters except the output bounds and the
+   interpolation *)
 Definition accepts_lattice_constraints (c : lattice_cfg) : bool :=
   let n := zlen (l_sizes c) in
   sizes_ok (l_sizes c) &&
@@ -130,6 +130,12 @@ Definition accepts_lattice_constraints (c : lattice_cfg) : bool :=
 
 Definition accepts_lattice (c : lattice_cfg) : bool :=
   accepts_lattice_constraints c && bounds_strict_ok (l_omin c) (l_omax c) && l_interp_ok c.
+
+(* the LatticeConstraints object: its constructor passes everything except the
+   interpolation (which it does not have) to verify_hyperparameters, the output
+   bounds included (since /repo commit 4a5c26d) *)
+Definition accepts_lattice_constraints_obj (c : lattice_cfg) : bool :=
+  accepts_lattice_constraints c && bounds_strict_ok (l_omin c) (l_omax c).
 
 (* The Lattice layer with its default kernel initialiser additionally builds a
    LinearInitializer (unless one joint unimodality covers all features), which
